@@ -353,7 +353,7 @@ func init() {
 	core.Register(&core.Prop{
 		ID:    "C09",
 		Title: "Linked hash containers iterate in insertion order",
-		Cases: func(tier string) int { return tierN(tier, 40000, 800000) },
+		Cases: func(tier string) int { return tierN(tier, 40000, 2400000) },
 		Run:   runC09,
 		Rule: "random Put/Add/Remove/Clear histories with repeated, removed and re-inserted keys (duplicates inside one Add, remove-then-reinsert) on LinkedHashMap and LinkedHashSet over small int and string alphabets; " +
 			"after every call Keys(), Values() (aligned), a full iterator walk, the Each callback order and the key/element order of ToJSON() (token decoder) are compared with a slice of live keys in insertion order. " +
